@@ -170,36 +170,62 @@ def component_info(ctx):
     return comp, kinds, fields
 
 
+def _callers(ctx):
+    if getattr(ctx, "_callers", None) is None:
+        from ..index import FuncInfo as _FI
+
+        m = {}
+        for fi in ctx.ix.all_functions():
+            for _node, callee in ctx.eng.summary(fi).calls:
+                if isinstance(callee, _FI) and callee is not fi:
+                    m[id(callee.node)] = m.get(id(callee.node), 0) + 1
+        ctx._callers = m
+    return ctx._callers
+
+
 def c2_copy_on_write(ctx, res: Result, rule="C2-component-copy-on-write") -> int:
-    """Every in-place write to a component (attribute store, setattr, mutation of a
-    container held in a component field) is on an object created/copied in the same function."""
+    """Every in-place write to a component (attribute store, setattr, mutation of a container held
+    in a component field) is on an object created/copied in the same function.  Writes that a
+    *private helper* (leading underscore, called from inside the package) makes on its own
+    parameter are judged at its call sites instead, where the summary substitutes the actual
+    argument - so extracting the body of a branch into a helper changes no verdict."""
     comp, kinds, fields = component_info(ctx)
     kind_names = {k.name for k in kinds} | {"Component"}
+    callers = _callers(ctx)
     n = 0
     for fi in ctx.ix.all_functions():
         own = fi.cls is not None and fi.cls.name in kind_names
+        private = fi.name.startswith("_") and not fi.name.startswith("__") and callers.get(id(fi.node), 0) > 0
         s = ctx.eng.summary(fi)
         for ev in s.events:
             if ev.kind == "callee":
-                continue  # reported where the write is
+                # only propagated writes of private helpers are judged here
+                callee_name = (ev.via or "").rsplit("::", 1)[-1].split(".")[-1]
+                if not (callee_name.startswith("_") and not callee_name.startswith("__")):
+                    continue
+                if own and fi.name in ("__init__", "__post_init__"):
+                    continue
             hit = None
-            if ev.kind in ("attr-store", "setattr", "del") and (ev.field in fields or ev.kind == "setattr"):
-                # a store to a component-named field of some object
+            counted = False
+            is_store = ev.field is not None and (ev.field in fields) and "[" not in ev.detail.split("=")[0].split("->")[-1] or ev.kind == "setattr"
+            if ev.kind in ("attr-store", "setattr", "del") or (ev.kind == "callee" and ev.field in fields):
+                if not (ev.field in fields or ev.kind == "setattr"):
+                    continue
+                counted = True
                 for l in ev.locs:
-                    if l[0] in ("F",):
+                    if l[0] == "F":
                         continue
                     if l == ("P", "self") and not own:
-                        # self is not a component: a same-named attribute of another class
                         continue
                     if l == ("P", "self") and own and fi.name in ("__init__", "__post_init__"):
-                        continue  # construction, not mutation
+                        continue
                     if ev.kind == "setattr" and l == ("P", "self"):
                         continue
+                    if private and root(l)[0] == "P" and root(l) != ("P", "self"):
+                        continue  # deferred to the call sites of this helper
                     hit = l
                     break
-                if ev.kind in ("attr-store", "setattr", "del") and (ev.field in fields or ev.kind == "setattr"):
-                    n += 1
-            elif ev.kind in ("mutator", "sub-store", "aug"):
+            elif ev.kind in ("mutator", "sub-store", "aug", "callee"):
                 for l in ev.locs:
                     r, steps = loc_steps(l)
                     fsteps = [st[1] for st in steps if st[0] == "f"]
@@ -207,16 +233,19 @@ def c2_copy_on_write(ctx, res: Result, rule="C2-component-copy-on-write") -> int
                         continue
                     if r == ("P", "self") and not own:
                         continue
-                    if any(f in fields for f in fsteps) and _through_component(ctx, fi, r, steps, fields):
+                    if private and r[0] == "P" and r != ("P", "self"):
+                        continue
+                    if any(f in fields for f in fsteps):
                         hit = l
                         break
-                if any(st[0] == "f" and st[1] in fields for l in ev.locs for st in loc_steps(l)[1]):
-                    n += 1
+                counted = any(st[0] == "f" and st[1] in fields for l in ev.locs for st in loc_steps(l)[1])
+            if counted:
+                n += 1
             if hit is not None:
                 res.bad(rule, f"{fi.qualname}:{ev.field or ev.kind}", ev.site(), fi.qualname,
                         f"in-place write to a component that may be shared with another circuit (not a copy made in this function): {describe(ev)}",
                         construct=src(ev.node)[:300])
-            elif ev.kind in ("attr-store", "setattr", "del") and (ev.field in fields or ev.kind == "setattr") and any(l[0] == "F" for l in ev.locs):
+            elif counted and any(l[0] == "F" for l in ev.locs):
                 res.ok(rule, f"{fi.qualname}:{ev.field or ev.kind}", ev.site(), fi.qualname, "target is a copy created in this function on every reaching definition")
     return n
 
